@@ -1,9 +1,58 @@
 #include "slu_ddefs.h"
 #include "vf_prelude.h"
 #include "vf_replaced.h"
+/* ASSUMED models of the two allocators of SRC/dmemory.c (loop-free bodies, same statement as a private contract):
+ *   doubleCalloc(n): a new ledger block of exactly n doubles, every one 0.0 (n <= NCAP * NRHSCAP in this unit), or no return
+ *                    (the library ABORTs when malloc fails);   doubleMalloc(n): the same with arbitrary contents.
+ * The blocks are TYPED (malloc(n * sizeof(double))): see the tool note below. */
+double *doubleCalloc(size_t n)
+{
+    double *p = (double *)malloc(n * sizeof(double));
+    if (!p) vf_abort("doubleCalloc");
+    __CPROVER_assume(__CPROVER_forall { int qz; (0 <= qz && qz < NCAP * NRHSCAP) ==> ((size_t)qz < n ==> p[qz] == 0.0) });
+    g_live++;
+    return p;
+}
+
+double *doubleMalloc(size_t n)
+{
+    double *p = (double *)malloc(n * sizeof(double));
+    if (!p) vf_abort("doubleMalloc");
+    g_live++;
+    return p;
+}
+
+#if defined(DG_V_TRANS) || defined(DG_V_NOTRANS)
+/* The two solve variants: the argument objects are the TYPED, pairwise distinct, uninitialised (= nondeterministic) objects
+ * below - exactly the objects the contract's FRESH clauses describe (in these variants the contract text says rw_ok for
+ * them, macro DG_OBJ).  TOOL REASON (measured in unit sp_dtrsv): __CPROVER_is_fresh creates untyped byte arrays; every
+ * dereference of a pointer loaded from such a block and every quantifier instance over it costs ~100 k clauses.
+ * No assumption is made here: nothing is initialised except the pointer fields. */
+void h_dgstrs(void)
+{
+    trans_t trans;
+    SuperMatrix L, U, B;
+    SCformat Ls;
+    NCformat Us;
+    DNformat Bs;
+    int sup_to_col[NCAP + 1];
+    int_t rowind_colptr[NCAP + 1], nzval_colptr[NCAP + 1], rowind[LSUBCAP], ucolptr[NCAP + 1], urowind[UNZCAP];
+    double lnzval[LNZCAP], unzval[UNZCAP], bval[LDBCAP * NRHSCAP];
+    int perm_c[NCAP], perm_r[NCAP];
+    SuperLUStat_t stat;
+    flops_t ops[NPHASES];
+    int info;
+    Ls.sup_to_col = sup_to_col; Ls.rowind_colptr = rowind_colptr; Ls.nzval_colptr = nzval_colptr; Ls.rowind = rowind; Ls.nzval = lnzval;
+    Us.colptr = ucolptr; Us.rowind = urowind; Us.nzval = unzval;
+    Bs.nzval = bval;
+    L.Store = &Ls; U.Store = &Us; B.Store = &Bs; stat.ops = ops;
+    dgstrs(trans, &L, &U, perm_c, perm_r, &B, &stat, &info);
+}
+#else
 /* all argument objects are created by the contract's preconditions (__CPROVER_is_fresh) */
 void h_dgstrs(void)
 {
     trans_t trans; SuperMatrix *L, *U, *B; int *perm_c, *perm_r; SuperLUStat_t *stat; int *info;
     dgstrs(trans, L, U, perm_c, perm_r, B, stat, info);
 }
+#endif
